@@ -3,5 +3,5 @@
 cd /verif
 for f in mutants/${1:-}*.diff; do
   b=$(basename $f .diff); prop=$(echo ${b:0:3} | tr a-z A-Z)
-  tools/mutate.sh $f $prop ${VERIF_MUT_RUNS:-} 2>&1 | cut -c1-420
+  tools/mutate_wt.sh $f $prop ${VERIF_MUT_RUNS:-} 2>&1 | cut -c1-420
 done
